@@ -1,6 +1,5 @@
 #!/usr/bin/env python3
-"""Regenerates coq/_CoqProject (every .v under lib gen spec model proofs props reviewed) and
-coq/extract/Extract.v (from coq/extract/*.names: lines `Import: <modules>` and `Extract: <names>`)."""
+"""Regenerates coq/_CoqProject (every .v under lib gen reviewed spec model proofs props)."""
 import glob, os
 ROOT = os.path.dirname(os.path.dirname(os.path.abspath(__file__)))
 COQ = os.path.join(ROOT, "coq")
@@ -11,26 +10,3 @@ content = "-Q . V\n" + "\n".join(files) + "\n"
 p = os.path.join(COQ, "_CoqProject")
 if not os.path.exists(p) or open(p).read() != content:
     open(p, "w").write(content)
-imports, names = [], []
-for f in sorted(glob.glob(os.path.join(COQ, "extract", "*.names"))):
-    for line in open(f):
-        line = line.strip()
-        if line.startswith("Import:"):
-            imports += line[len("Import:"):].split()
-        elif line.startswith("Extract:"):
-            names += line[len("Extract:"):].split()
-imports = list(dict.fromkeys(imports))
-names = list(dict.fromkeys(names))
-ext = """(* GENERATED by tools/mkproject.py from extract/*.names.
-   Extraction of the executable model and specification oracles to OCaml.
-   ExtrOcamlBasic only: N, positive, nat stay extracted inductives. *)
-Require Extraction.
-Require Import ExtrOcamlBasic.
-From V Require Import %s.
-Extraction Language OCaml.
-Extraction "verif_model.ml"
-  %s.
-""" % (" ".join(imports), "\n  ".join(names))
-p = os.path.join(COQ, "extract", "Extract.v")
-if not os.path.exists(p) or open(p).read() != ext:
-    open(p, "w").write(ext)
